@@ -466,7 +466,12 @@ def alias_writeback(ctx):
                why='when source and destination are the same declared object the source-side result is lost '
                    '(material is created)', key=f"alias write-back {name}")
     floor(ctx, 'paired write-backs in bake', len(pairs), 1)
-    # (b) PlateSlicer._transfer: two slicer handles made to share one plate copy
+    shared_plate_copy(ctx, 'C01.R5')
+
+
+def shared_plate_copy(ctx, rule, identity_only=False):
+    """PlateSlicer._transfer: two slicer handles made to share one plate copy."""
+    model = ctx.model
     fi = model.func('PlateSlicer._transfer')
     fft = ctx.flow('PlateSlicer._transfer')
     shared = []
@@ -483,11 +488,13 @@ def alias_writeback(ctx):
             if cmp_.op in ('eq', 'is') and cmp_.right is not None and \
                     {getattr(cmp_.left, 'pkey', None), getattr(cmp_.right, 'pkey', None)} == keys:
                 same_obj = True
-        ctx.ob('C01.R5', fi, st.lineno, f"{sorted(keys)} are replaced by one copy only when they are the same plate object",
+        ctx.ob(rule, fi, st.lineno, f"{sorted(keys)} are replaced by one copy only when they are the same plate object",
                same_obj, fact=('guarded by equality / identity of the two plate objects' if same_obj else
                                'the branch is not guarded by a comparison of the two plate objects themselves'),
                why='two different plates (e.g. with equal names) are treated as one: the source wells are read from a '
                    'copy of the destination plate', key='shared plate copy without identity test')
+        if identity_only:
+            continue
         post = fft.post.get(id(st))
         writes = [(c, s, b) for c, s, b in fft.calls if isinstance(c.func, ast.Attribute) and c.func.attr in ('set', 'apply')
                   and pathkey(c.func.value) in roots and fft.seq(s) > fft.seq(st)]
@@ -524,7 +531,7 @@ def alias_writeback(ctx):
                     from ..flow import exc_name
                     if mentions and not shape_test and exc_name(later.body[-1]) == 'ValueError':
                         gated = True
-        ctx.ob('C01.R5', fi, st.lineno, f"slices {roots} share one plate copy and are both written back", gated or not writes,
+        ctx.ob(rule, fi, st.lineno, f"slices {roots} share one plate copy and are both written back", gated or not writes,
                fact=f"{len(writes)} write-backs after `{unparse(st, 60)}`; no gate on overlapping regions" if not gated else 'gated',
                why='for overlapping source and destination regions of one plate the second write-back overwrites '
                    'the first (material is created)', key='shared plate write-back')
